@@ -3,7 +3,7 @@ package main
 func init() {
 	props["C03"] = propInfo{
 		level:     "exploration",
-		quickRuns: 2400, chunk: 1, thoroughS: 600, thoroughMax: 2000000,
+		quickRuns: 8000, chunk: 1, thoroughS: 600, thoroughMax: 2000000,
 		rule: "run i draws from splitmix64(VERIF_SEED, C03, i): mode (60% scheduled run of 2-4 tasks on distinct pool documents under a seeded (task, quantum) schedule; 30% single-task call history of 2-6 operations; 10% one operation under a seeded map-iteration order), documents from a seeded pool (PDF from the independent writer, content streams incl. operand-only / mid-operand / failing inputs, HTML), operations from the public entry points. A run is non-trivial when it had at least one context switch (scheduled), more than one operation (history) or a non-identity map order; distinct = distinct hash of the (from-task, to-task, site) sequence at context switches together with the task programs, or distinct (operation list, map seed).",
 		assume: []string{
 			"solo references are computed by this worker binary in a fresh child process, twice (two map orders)",
@@ -12,6 +12,22 @@ func init() {
 		},
 		simulated: []string{"caller tasks and the scheduler that interleaves them", "map iteration order", "file images and their producer (independent PDF writer, content-stream and HTML generators)"},
 	}
+	props["C01"] = propInfo{
+		level:     "exploration",
+		quickRuns: 10000, chunk: 100, thoroughS: 600, thoroughMax: 50000000,
+		rule: "run i draws a document spec (every physical-layout dimension an explicit field, swarm style) and a per-revision access history from splitmix64(VERIF_SEED, C01, i); the independent writer commits the file revision by revision to the simulated disk and after each commit the history (page count, pages in any order via reader and extractor APIs, boxes, rotation, font resources, cache clears, reopen, extractor sharing the reader) is executed and every answer compared with the writer's record of the newest revision. Specs that contain a listed known finding's feature set are steered away from it (probed separately). Non-trivial = at least one non-default layout feature and a non-empty history; distinct = distinct (feature set, history shape).",
+		assume: []string{
+			"the independent writer (harness/pdfw) emits well-formed PDF for every spec it accepts; expected text uses only code points whose encoding is beyond doubt",
+			"layouts the writer does not produce (encryption, hybrid-reference files, linearisation) are not decided",
+			"the layout x document quantifier is sampled as workload; what the simulator adds is the revision-by-revision commit protocol, access histories on the stateful reader and the map-order seam",
+		},
+		simulated: []string{"the writer/reader protocol over the simulated disk (append-only revisions)", "reader access histories", "map iteration order"},
+	}
+	anchors["C01"] = []string{"reader.Reader.loadXRef", "core.XRefParser.ParseAllXRefs", "core.MergeXRefTables", "reader.Reader.GetObject",
+		"reader.Reader.getUncompressedObject", "reader.Reader.getCompressedObject", "core.Parser.parseStream", "core.Lexer.ReadBytes",
+		"pages.PageTree.traversePageNode", "pages.Page.getBox", "pages.Page.Resources", "pages.Page.Rotate",
+		"reader.Reader.extractTextWithFragments", "text.Extractor.RegisterFontsFromResources", "text.Extractor.showText",
+		"core.XRefParser.parseXRefStream", "core.ObjectStream.GetObjectByIndex"}
 	anchors["C03"] = []string{"contentstream.Parser.parseNext", "contentstream.Parser.parseOperator", "text.Extractor.RegisterFontsFromResources",
 		"rag.Exporter.collectCSVColumns", "layout.LineDetector.calculateAdaptiveTolerance", "tabula.Extractor.clone", "tabula.ExtractOptions.clone",
 		"core.Dict.String", "rag.flattenMetadata"}
